@@ -559,12 +559,22 @@ def writes_after_guard(P, fn_qual, rel, a_rx, b_rx=None, root_local=1):
     """every assignment through the receiver (`self.x = ..`) in F is unreachable unless the guard has passed"""
     fn = P.fn(fn_qual)
     body = P.body(fn)
-    gs = [g for g in GuardExtractor(body).guards() if g.matches(rel, a_rx, b_rx) and g.idiom == 'branch']
+    gs = [g for g in GuardExtractor(body).guards() if g.matches(rel, a_rx, b_rx)]
     if not gs:
-        raise AnchorMissing('`%s` has no branch guard [%s %s %s]' % (fn_qual, a_rx, rel, b_rx))
+        raise AnchorMissing('`%s` has no guard [%s %s %s]' % (fn_qual, a_rx, rel, b_rx))
     g = gs[0]
-    t = body.term(g.block)
-    pass_blocks = [s for s in body.succs(g.block) if s != g.fail_block]
+    if g.idiom == 'branch':
+        pass_blocks = [s for s in body.succs(g.block) if s != g.fail_block]
+    else:
+        # `cond.then_some(x).ok_or(E)?`: the pass point is the Continue arm of the `?` on the ok_or result
+        d = body.term(g.block)['dest']['l']
+        pass_blocks = []
+        for bi, t in body.calls_named(r'Option::ok_or(_else)?$'):
+            a = t['args'][0]
+            if a['k'] in ('copy', 'move') and a['pl']['l'] == d:
+                pass_blocks = list(checked_pass_blocks(body, bi)[0])
+        if not pass_blocks:
+            raise AnchorMissing('`%s`: the result of the then_some/ok_or guard is not checked' % fn_qual)
     reach = body.reach([0], set(pass_blocks))
     r = Res()
     for bi, b in enumerate(body.B):
